@@ -1,4 +1,4 @@
-\* S->I: all vesting messages, <= 2 messages per behaviour, time 0..5
+\* S->I thorough: account operations, <= 2 messages per behaviour interleaved with time steps 0..6 (three messages do not finish within the 50 min TLC budget: measured)
 SPECIFICATION Spec
 CONSTANTS
   P = 100
@@ -11,7 +11,7 @@ CONSTANTS
   Tries <- MCTries
   TrySet = "accounts"
   Tmax = 6
-  MaxMsgs = 3
+  MaxMsgs = 2
   Blocked = {"mod"}
   Quirks = {}
 INVARIANTS C05_Backed C05_Bounds NoNegBal C17_TraceOnlyForVesting
